@@ -406,7 +406,8 @@ type c19World struct {
 	cerr     map[int]bool // sockets whose Close() reports an error
 	serr     map[int]bool // ordinals of Set* calls that report an error
 	nsets    int
-	injMu    sync.Mutex
+	injSem   chan struct{} // one injection at a time; a channel made inside the bubble, so that waiting for it is durable
+	orphan   int           // sockets found open with nobody reading them (a datagram was never taken)
 	closeRet bool // some conn.Close() call has returned
 	lateListen bool // ListenUDPFunc was called after some conn.Close() call had returned
 	inRead   int  // ReadFrom calls entered (RS) and not yet returned (R)
@@ -594,9 +595,13 @@ func (w *c19World) snap(u *udpHopPacketConn, quiescent bool) {
 // socket is closed in between (a hop or Close racing the arrival) the receiver still delivers what it holds, so the
 // injector keeps waiting until the receiver is back in ReadFrom (or has exited) and does not go by the socket's state:
 // otherwise the next injected datagram could overtake this one on its way into the queue.
+//
+// If the whole bubble comes to rest (only then does the fake clock move) and the datagram still has not been taken
+// although the queue has room, nobody is reading that open socket: the injector gives up and that becomes a verdict
+// (the datagram arrived on an open socket and will never be delivered) instead of a wait without end.
 func (w *c19World) inject(u *udpHopPacketConn, role string, timeout bool) {
-	w.injMu.Lock()
-	defer w.injMu.Unlock()
+	w.injSem <- struct{}{}
+	defer func() { <-w.injSem }()
 	u.connMutex.RLock()
 	id := -1
 	switch role {
@@ -627,7 +632,21 @@ func (w *c19World) inject(u *udpHopPacketConn, role string, timeout bool) {
 	s.pushed++
 	mine := s.pushed
 	w.cond.Broadcast()
+	gaveUp := false
+	tm := time.AfterFunc(time.Millisecond, func() {
+		w.mu.Lock()
+		gaveUp = true
+		w.cond.Broadcast()
+		w.mu.Unlock()
+	})
+	defer tm.Stop()
 	for !s.dead && s.entryHanded < mine {
+		if gaveUp {
+			if len(u.recvQueue) < packetQueueSize && s.open && s.pushed-s.handed > 0 {
+				w.orphan++
+			}
+			return
+		}
 		w.cond.Wait()
 	}
 }
@@ -666,6 +685,7 @@ func c19Hop(t *testing.T, c c19Case, res map[string]any) {
 	panicked, pmsg := vCatch(func() {
 		synctest.Test(t, func(t *testing.T) {
 			rand.Seed(c.Seed)
+			w.injSem = make(chan struct{}, 1)
 			pc, err := NewUDPHopPacketConn(addr, HopIntervalConfig{Min: time.Duration(c.Min), Max: time.Duration(c.Max)}, w.listen)
 			if err != nil {
 				ctorErr = true
@@ -1096,6 +1116,9 @@ func c19Hop(t *testing.T, c c19Case, res map[string]any) {
 		}
 		if w.lateListen {
 			fail("ListenUDPFunc called after Close had returned")
+		}
+		if w.orphan > 0 {
+			fail("a datagram arrived on an open socket that nobody reads (no receiver was started for it): never delivered")
 		}
 		for id, sc := range census {
 			if sc[0] == 1 {
